@@ -135,8 +135,16 @@ func (s Sample) Mean() float64 {
 		//   m_i = (1 - w_i/wsum_i) * m_(i-1) + (w_i/wsum_i) * x_i
 		//       = m_(i-1) + (x_i - m_(i-1)) * (w_i/wsum_i)
 		w := s.Weights[i]
+		if w == 0 {
+			// Skip zero weights so a zero running weight
+			// doesn't turn the update into 0/0.
+			continue
+		}
 		wsum += w
 		m += (x - m) * w / wsum
+	}
+	if wsum == 0 {
+		return math.NaN()
 	}
 	return m
 }
@@ -202,9 +210,17 @@ func (s Sample) GeoMean() float64 {
 	m, wsum := 0.0, 0.0
 	for i, x := range s.Xs {
 		w := s.Weights[i]
+		if w == 0 {
+			// Skip zero weights so a zero running weight
+			// doesn't turn the update into 0/0.
+			continue
+		}
 		wsum += w
 		lx := math.Log(x)
 		m += (lx - m) * w / wsum
+	}
+	if wsum == 0 {
+		return math.NaN()
 	}
 	return math.Exp(m)
 }
